@@ -468,7 +468,28 @@ func execC34(c *hlib.Ctx, tok []string) string {
 	var outs []string
 	lost := false
 	for i, a := range hlib.Split(tok[5], ",") {
+		before, _ := env.bucketBlocks()
 		ok, err := env.act(c, a)
+		if a == "g" || a == "x" {
+			after, _ := env.bucketBlocks()
+			mb, ma := 0, 0
+			for _, b := range before {
+				if b.marked {
+					mb++
+				}
+			}
+			for _, b := range after {
+				if b.marked {
+					ma++
+				}
+			}
+			if a == "g" && ma > mb {
+				c.Count("gc-marked-something")
+			}
+			if a == "x" && len(after) < len(before) {
+				c.Count("cleaner-deleted-something")
+			}
+		}
 		if err != nil {
 			if strings.HasPrefix(err.Error(), "bad action") {
 				return "bad-op"
@@ -544,7 +565,7 @@ func (s *simState) unmarkedUncovered() []uint64 {
 
 func genC34(c *hlib.Ctx) {
 	r := c.R
-	n := c.N(700, 30000)
+	n := c.N(700, 12000)
 	if c.Tier == "search" {
 		n = 1500 // the search after a broken proof/tie: a bounded extra budget
 	}
@@ -661,22 +682,35 @@ func genC34(c *hlib.Ctx) {
 				if d < 0 {
 					d = 10
 				}
-				// respect the lag (mostly): sync the gateways that would fall behind
-				for g := 0; g < k; g++ {
-					if sim.now+d > sim.gwSync[g]+lag && r.Chance(9, 10) {
-						emit(fmt.Sprintf("y:%d", g))
-						sim.gwSync[g] = sim.now
+				// respect the lag (mostly): a long interval is walked in steps of at most `lag`, the gateways that would
+				// fall behind sync before each step
+				remaining := d
+				for iter := 0; iter < 8 && remaining > 0; iter++ {
+					stepd := remaining
+					maxStep := lag - lag%10
+					if stepd > maxStep && r.Chance(19, 20) {
+						stepd = maxStep
 					}
-				}
-				emit(fmt.Sprintf("t:%d", d))
-				okTick := true
-				for g := 0; g < k; g++ {
-					if sim.now+d > sim.gwSync[g]+lag {
-						okTick = false
+					if stepd <= 0 {
+						break
 					}
-				}
-				if okTick {
-					sim.now += d
+					for g := 0; g < k; g++ {
+						if sim.now+stepd > sim.gwSync[g]+lag && r.Chance(9, 10) {
+							emit(fmt.Sprintf("y:%d", g))
+							sim.gwSync[g] = sim.now
+						}
+					}
+					emit(fmt.Sprintf("t:%d", stepd))
+					okTick := true
+					for g := 0; g < k; g++ {
+						if sim.now+stepd > sim.gwSync[g]+lag {
+							okTick = false
+						}
+					}
+					if okTick {
+						sim.now += stepd
+					}
+					remaining -= stepd
 				}
 				if r.Chance(1, 2) {
 					emit("x")
